@@ -29,6 +29,20 @@ func runC04(c *Ctx) {
 			c.Undecided("count", "at least 40 accesses of atomically-accessed fields", "-", "found fewer")
 		}
 	})
+	if c.Thorough() {
+		// discovery pass: the same discipline over every first-party package (a new lock-free structure anywhere in
+		// the module is held to it), not only the package the property anchors
+		c.Rule("atomic-module-wide", func() {
+			var all []string
+			for _, pk := range c.P.Pkgs {
+				if r := relPkg(pk.PkgPath); r != "actor" {
+					all = append(all, r)
+				}
+			}
+			c.AtomicDiscipline("atomic", all...)
+			c.Ok("scanned", "every first-party package scanned for mixed atomic/plain access", "-")
+		})
+	}
 
 	var impls []*types.Named
 	c.Rule("siblings", func() {
